@@ -12,18 +12,29 @@ PROPS_FILES = ["Props/C05.v", "Props/C05_incumbent.v", "Props/C05_qei.v", "Props
 ASSUMPTIONS = [
   "real arithmetic (Coq R / Coquelicot); Phi := 1/2 + RInt pdf 0 z, so Phi' = pdf is proved; 0 < Phi < 1 and z*Phi(z) -> 0 at -infinity (Gaussian integral facts H_Phi_range, H_Phi_tail) are assumptions",
   "E[max(best - Y, 0)] is characterised through its derivative in the incumbent (= Phi(z) = P(Y <= best)); the improper integral itself is not formalised: the searcher compares with numerical quadrature",
-  "Monte-Carlo parallel EI is compared with the exact value within a 6-sigma Monte-Carlo band (a statistical statement, searcher only)",
+  "Monte-Carlo parallel EI, with and without failure models, is modelled (Model/ParallelEI.v, Model/ParallelEIF.v) and tied to the running classes by an exact in-Coq "
+  "correspondence on stub predictors with a prescribed factor per covariance and scripted normal draws; that the factor satisfies L L' = cov is C17; that the sample mean "
+  "agrees with the expectation is a statistical statement, compared within a 6-sigma Monte-Carlo band by the searcher only",
+  "parallel EI with failure models: theorems state what the code computes (one vector of draws shared by the objective and every failure model; per-point strict threshold "
+  "test, indicators multiplied; whole-block fallback to success-probability weighted improvements); no exact reference value exists for this estimator in the library, so no "
+  "statistical comparison is made for it; set independence and independence of the block size are refuted for it (C05_qeif_*_refuted / _matters, replayed on the real class)",
   "scipy.stats.norm.cdf/pdf/ppf are Phi/pdf/its inverse (contract)",
 ]
-TRUSTED = ["tools/py2v translator (dual-rendering self-check on every run)", "Model/Incumbent.v check function and the harness"]
+TRUSTED = ["tools/py2v translator (dual-rendering self-check on every run)", "Model/Incumbent.v, Model/ParallelEICorr.v, Model/ParallelEIFCorr.v check functions and the harness"]
 LEVEL_TEXT = ("Coq/Coquelicot theorems over definitions regenerated from predictor.py, expected_improvement.py, probabilistic_failures.py, "
               "multitask_acquisition_function.py on every run: EI = sigma*max(0, z Phi(z)+pdf(z)) >= 0, d/d(best) of sigma*G(z) = Phi(z), augmented "
               "penalty in [0,1), failure-weighted form = EI * probability, multitask = value / cost, logistic probability in (0,1) and non-increasing, "
               "CDF model = Phi((t-mu)/sd) strictly decreasing, product model multiplies and stays in [0,1]; batched evaluation = map and the "
               "incumbents (first minimum; mean at the arg-min of the 3/4 quantile; best acceptable observation) proved on an executable model tied by "
-              "in-Coq correspondence; quadrature / Monte-Carlo / monotonicity search on the running code")
-LEVEL_NOTE = ("the integral identity E[max(best-Y,0)] = sigma*G(z) is partial (derivative characterisation proved, Gaussian tail assumed); Monte-Carlo "
-              "agreement by search only; axioms: standard-library real-number axioms")
+              "in-Coq correspondence; Monte-Carlo parallel EI (Model/ParallelEI.v) and parallel EI with failure models (Model/ParallelEIF.v) as executable models of "
+              "_evaluate_at_point_list / evaluate_at_point_list with an exact correspondence on the real classes: each estimate is the mean over the executed draws of "
+              "max(0, best - min(sample)), for the failure class restricted to the points whose sampled failure-model values are all strictly below their thresholds "
+              "(same draws), with a whole-block fallback to success-probability weighted improvements; >= 0, <= the plain estimate on the negated draws, = the plain "
+              "estimate when every sample is feasible; quadrature / Monte-Carlo / monotonicity search on the running code")
+LEVEL_NOTE = ("the integral identity E[max(best-Y,0)] = sigma*G(z) is partial (derivative characterisation proved, Gaussian tail assumed); both Monte-Carlo parallel-EI "
+              "loops are modelled and tied exactly - what remains outside: the factor itself (C17) and the agreement of the sample mean with the expectation (search only, "
+              "plain class); for the failure class set independence holds only between calls in which no block falls back (refuted in general); axioms: standard-library "
+              "real-number axioms (the parallel-EI theorems are closed under the global context)")
 TECHNIQUE = "Coq/Coquelicot proofs on definitions regenerated from source (translator) + in-Coq correspondence + quadrature/Monte-Carlo search"
 DESIGN_REF = "DESIGN.md section 7, C05"
 
@@ -305,6 +316,273 @@ def qei_correspondence(ctx):
               samples=[dict(kind="qei", input={k: v for k, v in i.items() if k != "stream"}, impl_output=o) for i, o in meta[:1]])
 
 
+# ------------------------------------------------------------------------------------------ correspondence (Monte-Carlo parallel EI with failure models)
+
+QEIF_HEADER = ("From Coq Require Import List QArith Bool Arith.\nFrom LV Require Import Model.ParallelEI Model.ParallelEIF Model.ParallelEIFCorr.\n"
+               "Open Scope Q_scope.")
+
+
+def _qeif_factor(rng, c, covs):
+  """a dyadic lower-triangular factor (k/4, zeros on the diagonal allowed) whose covariance L L' is new among `covs`"""
+  from fractions import Fraction as F
+  diag = [0, 1, 2, 3, 4, 6] if c > 1 else [0, 1, 2, 3, 4, 5, 6, 7, 8, 10, 12, 14, 16, 20, 24]   # 1x1: up to 12 different covariances are needed
+  while True:
+    L = [[(rng.randint(-8, 8) / 4.0 if j < i else rng.choice(diag) / 4.0 if j == i else 0.0) for j in range(c)] for i in range(c)]
+    cov = [[float(sum(F(L[i][l]) * F(L[j][l]) for l in range(c))) for j in range(c)] for i in range(c)]
+    if cov not in covs:
+      covs.append(cov)
+      return L
+
+
+def gen_qeif_case(rng):
+  """Stub posteriors on distinct integer points for the objective and for 1-2 failure models: dyadic means (k/8), one dyadic factor
+  per model and union (candidate set ++ pending), dyadic draws (k/4), dyadic thresholds (far above every sample / far below / in
+  the range of the samples / exactly a sampled value), dyadic success probabilities in [0,1] per point, a small history of
+  dyadic observed values with ties for the incumbent."""
+  from fractions import Fraction as F
+  q, p, n, dim, nf = rng.choice([1, 2, 3]), rng.choice([0, 1, 2]), rng.choice([1, 2, 3, 4]), rng.choice([1, 2]), rng.choice([1, 2])
+  nh = rng.choice([1, 2, 3, 4])
+  c = q + p
+  pool = []
+  while len(pool) < 6 + p + nh:
+    pt = [float(rng.randint(-8, 8)) for _ in range(dim)]
+    if pt not in pool:
+      pool.append(pt)
+  pending, hist, pool = pool[:p], pool[p:p + nh], pool[p + nh:]
+  sets = []
+  for _ in range(n):
+    if sets and rng.random() < 0.15:
+      sets.append([list(pt) for pt in rng.choice(sets)])           # the same candidate set twice in one call
+    else:
+      sets.append([list(rng.choice(pool)) for _ in range(q)])      # points shared between sets, repeated inside a set
+  uniq = []
+  for s in sets:
+    if s not in uniq:
+      uniq.append(s)
+  covs = []
+  means = [[pt, rng.randint(-16, 16) / 8.0] for pt in pool + pending]
+  factors = [[s, _qeif_factor(rng, c, covs)] for s in uniq]
+  regime = rng.choice(["all", "none", "some", "some", "some", "mixed", "hit"])
+  fmodels = []
+  for i in range(nf):
+    r = rng.choice(["all", "none", "some"]) if regime == "mixed" else regime
+    thr = 64.0 if r == "all" else -64.0 if r == "none" else rng.randint(-12, 12) / 8.0
+    fmodels.append(dict(threshold=thr, means=[[pt, rng.randint(-16, 16) / 8.0] for pt in pool + pending],
+                        probs=[[pt, rng.choice([0.0, 0.25, 0.5, 0.5, 0.75, 1.0, 1.0])] for pt in pool + pending + hist],
+                        factors=[[s, _qeif_factor(rng, c, covs)] for s in uniq]))
+  hist_values = [rng.randint(-8, 8) / 4.0 for _ in hist]
+  if rng.random() < 0.5:
+    hist_values[rng.randrange(nh)] = min(hist_values)
+  N, B = rng.choice(QEI_NB_EXACT) if rng.random() < 0.75 else rng.choice(QEI_NB_ROUNDED)
+  entry = rng.choice(["direct", "direct", "public"])
+  batch = rng.choice([None, 0, 1, 2, 3, n, n + 1]) if entry == "public" else None
+  bs = (batch or n) if entry == "public" else n
+  calls = -(-n // bs)
+  b = min(B, N)
+  need = calls * (-(-N // b)) * b * c
+  stream = [rng.randint(-12, 12) / 4.0 for _ in range(need + (calls + 1) * b * c + 3)]    # slack: a changed loop may ask for one more block per call
+  if regime == "hit":   # the threshold of a model is exactly the value it samples at some point of some set for some early draw
+    fm = rng.choice(fmodels)
+    k, j, d = rng.randrange(min(n, bs)), rng.randrange(c), rng.randrange(b)
+    z = [F(v) for v in stream[d * c:(d + 1) * c]]
+    mean_of = {tuple(pt): m for pt, m in fm["means"]}
+    L = [L for s, L in fm["factors"] if s == sets[k]][0]
+    m = [mean_of[tuple(pt)] for pt in sets[k] + pending]
+    fm["threshold"] = float(F(m[j]) + sum(F(L[j][l]) * z[l] for l in range(c)))
+  return dict(kind="qeif", q=q, p=p, dim=dim, sets=sets, pending=pending, hist=hist, hist_values=hist_values, best0=rng.randint(-16, 16) / 8.0,
+              means=means, factors=factors, fmodels=fmodels, regime=regime, N=N, B=B, entry=entry, batch=batch,
+              as3d=bool(q > 1 or (entry == "direct" and rng.random() < 0.5)), stream=stream)
+
+
+# fixed cases: the inputs of the `_refuted` / `_matters` theorems of Props/C05_qeif.v, replayed on the real class on every run
+def _qeif_fixed(sets, fm_thr, fm_mean, sp, N, B, stream, entry="direct", batch=None, obj_mean=0.0, best=0.0):
+  """q = 1, no pending point, one failure model, unit factors; candidate set k is the single point [k]"""
+  pts = [[float(k)] for k in range(len(sets))]
+  return dict(kind="qeif", q=1, p=0, dim=1, sets=[[pt] for pt in pts], pending=[], hist=[[9.0]], hist_values=[best], best0=best,
+              means=[[pt, sets[k]] for k, pt in enumerate(pts)], factors=[[[pt], [[1.0]]] for pt in pts],
+              fmodels=[dict(threshold=fm_thr, means=[[pt, fm_mean[k]] for k, pt in enumerate(pts)],
+                            probs=[[pt, sp[k]] for k, pt in enumerate(pts)] + [[[9.0], 1.0]],
+                            factors=[[[pt], [[float(k + 2)]]] for k, pt in enumerate(pts)])],
+              regime="fixed", N=N, B=B, entry=entry, batch=batch, as3d=False, stream=stream)
+
+
+QEIF_FIXED = [
+  # set A (objective mean 0, constraint mean 8: never feasible) alone falls back to 1/2 * improvement; next to set B (feasible,
+  # improving) it gets 0: C05_qeif_set_independent_refuted
+  ("set-alone", _qeif_fixed([0.0], 0.0, [8.0], [0.5], 1, 1, [-1.0, 7.0, 7.0])),
+  ("set-with-other", _qeif_fixed([0.0, 0.0], 0.0, [8.0, -8.0], [0.5, 0.5], 1, 1, [-1.0, 7.0, 7.0])),
+  ("set-batched-alone", _qeif_fixed([0.0, 0.0], 0.0, [8.0, -8.0], [0.5, 0.5], 1, 1, [-1.0, -1.0, 7.0, 7.0], entry="public", batch=1)),
+  # the same two draws as one block of two or two blocks of one: C05_qeif_block_size_matters
+  ("one-block", _qeif_fixed([0.0], 0.0, [3.0], [0.5], 2, 2, [-1.0, -2.0, 7.0, 7.0, 7.0])),
+  ("two-blocks", _qeif_fixed([0.0], 0.0, [3.0], [0.5], 2, 1, [-1.0, -2.0, 7.0, 7.0, 7.0])),
+  # every sample feasible: the estimate is the plain parallel EI of the NEGATED draws, here above the plain parallel EI of the
+  # draws themselves: C05_qeif_le_plain_on_same_draws_refuted
+  ("all-feasible", _qeif_fixed([0.0], 64.0, [0.0], [1.0], 1, 1, [-1.0, 7.0, 7.0])),
+]
+
+
+def qeif_tables(inp):
+  """per candidate set (objective (means, factor), per failure model (means, factor), per failure model the success probability of
+  the first point), per failure model (pending means, threshold), objective pending means, per failure model the success
+  probabilities at the sampled points - as prescribed by the case"""
+  key = lambda s: tuple(tuple(pt) for pt in s)
+  mean_of = {tuple(pt): m for pt, m in inp["means"]}
+  fac_of = {key(s): L for s, L in inp["factors"]}
+  fm_mean = [{tuple(pt): m for pt, m in fm["means"]} for fm in inp["fmodels"]]
+  fm_fac = [{key(s): L for s, L in fm["factors"]} for fm in inp["fmodels"]]
+  fm_prob = [{tuple(pt): v for pt, v in fm["probs"]} for fm in inp["fmodels"]]
+  nf = len(inp["fmodels"])
+  per_set = [(([mean_of[tuple(pt)] for pt in s], fac_of[key(s)]),
+              [([fm_mean[i][tuple(pt)] for pt in s], fm_fac[i][key(s)]) for i in range(nf)],
+              [fm_prob[i][tuple(s[0])] for i in range(nf)]) for s in inp["sets"]]
+  fms = [([fm_mean[i][tuple(pt)] for pt in inp["pending"]], inp["fmodels"][i]["threshold"]) for i in range(nf)]
+  hprobs = [[fm_prob[i][tuple(pt)] for pt in inp["hist"]] for i in range(nf)]
+  return per_set, fms, [mean_of[tuple(pt)] for pt in inp["pending"]], hprobs
+
+
+def run_qeif_case(inp):
+  """The real ExpectedParallelImprovementWithFailures over the real ProductOfListOfProbabilisticFailures on stub predictors and stub
+  failure models; compute_cholesky_for_gp_sampling (C17) and numpy.random.normal are replaced inside this process for the
+  duration of the construction and the call.  Returns the estimates, the incumbent and the size= arguments of the draws."""
+  from fractions import Fraction as F
+  import libsigopt.compute.expected_improvement as EI
+  from libsigopt.compute.predictor import Predictor
+  from libsigopt.compute.probabilistic_failures import ProbabilisticFailuresBase, ProductOfListOfProbabilisticFailures
+  q, p, dim, c = inp["q"], inp["p"], inp["dim"], inp["q"] + inp["p"]
+  fac_of = {}
+
+  def tables(means, factors):
+    cov_of = {}
+    for s, L in factors:
+      cov = numpy.array([[float(sum(F(L[i][l]) * F(L[j][l]) for l in range(c))) for j in range(c)] for i in range(c)], dtype=float).reshape(c, c)
+      cov_of[tuple(tuple(pt) for pt in s + inp["pending"])] = cov
+      fac_of[cov.tobytes()] = numpy.array(L, dtype=float).reshape(c, c)
+    return {tuple(pt): m for pt, m in means}, cov_of
+
+  def stub(means, factors, **attrs):
+    mean_of, cov_of = tables(means, factors)
+
+    class Stub(Predictor):
+      dim = inp["dim"]
+      differentiable = False
+      num_sampled = len(inp["hist"])
+      points_sampled = numpy.array(inp["hist"], dtype=float).reshape(len(inp["hist"]), inp["dim"])
+      points_sampled_value = numpy.array(inp["hist_values"], dtype=float)
+
+      def compute_mean_of_points(self, pts):
+        return numpy.array([mean_of[tuple(float(x) for x in pt)] for pt in numpy.asarray(pts)], dtype=float)
+
+      def compute_covariance_of_points(self, pts):
+        return numpy.copy(cov_of[tuple(tuple(float(x) for x in pt) for pt in numpy.asarray(pts))])
+    for k, v in attrs.items():
+      setattr(Stub, k, v)
+    return Stub()
+
+  class StubPF(ProbabilisticFailuresBase):
+    differentiable = False
+    dim = inp["dim"]
+
+    def __init__(self, fm):
+      self.predictor = stub(fm["means"], fm["factors"])
+      self.threshold = fm["threshold"]
+      self.prob_of = {tuple(pt): v for pt, v in fm["probs"]}
+
+    def compute_probability_of_success(self, pts):
+      self.verify_points_to_evaluate(pts)
+      return numpy.array([self.prob_of[tuple(float(x) for x in pt)] for pt in numpy.asarray(pts)], dtype=float)
+
+  pos, sizes = [0], []
+
+  def normal(loc=0.0, scale=1.0, size=None):
+    sizes.append([int(s) for s in (size if isinstance(size, (tuple, list)) else [size])])
+    k = int(numpy.prod(size))
+    if loc != 0.0 or scale != 1.0 or pos[0] + k > len(inp["stream"]):
+      raise RuntimeError("numpy.random.normal asked for non-standard draws or for more draws than any reading of the loop needs")
+    out = numpy.array(inp["stream"][pos[0]:pos[0] + k], dtype=float).reshape(size)
+    pos[0] += k
+    return out
+
+  def chol(cov):
+    return numpy.copy(fac_of[numpy.ascontiguousarray(cov, dtype=float).tobytes()])
+
+  pend = numpy.array(inp["pending"], dtype=float).reshape(p, dim)
+  pts = numpy.array(inp["sets"], dtype=float).reshape(len(inp["sets"]), q, dim)
+  if not inp["as3d"]:
+    pts = pts[:, 0, :]
+  old = EI.compute_cholesky_for_gp_sampling, numpy.random.normal
+  EI.compute_cholesky_for_gp_sampling, numpy.random.normal = chol, normal
+  try:
+    objective = stub(inp["means"], inp["factors"], best_observed_value=inp["best0"], best_observed_location=numpy.zeros(inp["dim"]))
+    product = ProductOfListOfProbabilisticFailures([StubPF(fm) for fm in inp["fmodels"]])
+    af = EI.ExpectedParallelImprovementWithFailures(objective, q, product, points_being_sampled=pend if p else None,
+                                                    num_mc_iterations=inp["N"], num_mc_iterations_per_loop=inp["B"])
+    best = float(af.best_value)
+    if inp["entry"] == "public":
+      out = af.evaluate_at_point_list(pts, batch_size=inp["batch"])
+    else:
+      out = af._evaluate_at_point_list(pts)
+  finally:
+    EI.compute_cholesky_for_gp_sampling, numpy.random.normal = old
+  out = [float(v) for v in numpy.asarray(out, dtype=float).ravel()]
+  return dict(out=out, blocks=sizes, best=best)
+
+
+def qeif_case_term(inp, out):
+  per_set, fms, mp, hprobs = qeif_tables(inp)
+  qv = lambda v: C.listlit(v, C.qlit)
+  cs = lambda ml: f"({qv(ml[0])}, {C.listlit(ml[1], qv)})"
+  sets = C.listlit([f"({cs(o)}, {C.listlit(fl, cs)}, {qv(pr)})" for o, fl, pr in per_set])
+  fmods = C.listlit([f"({qv(m)}, {C.qlit(t)})" for m, t in fms])
+  entry = "None" if inp["entry"] == "direct" else f"(Some {C.optlit(inp['batch'], C.nlit)})"
+  blocks = C.listlit([f"({C.nlit(b[0])}, {C.nlit(b[1])})" for b in out["blocks"]])
+  return (f"mkcase {C.nlit(inp['q'])} {sets} {fmods} {qv(mp)} {qv(inp['hist_values'])} {C.listlit(hprobs, qv)} {C.qlit(inp['best0'])} "
+          f"{C.qlit(out['best'])} {C.nlit(inp['N'])} {C.nlit(inp['B'])} {entry} {qv(inp['stream'])} {blocks} {qv(out['out'])}")
+
+
+def qeif_correspondence(ctx):
+  cases, meta, seen, dist, dis = [], [], set(), {}, []
+  inputs = [(tag, inp) for tag, inp in QEIF_FIXED] + [(None, gen_qeif_case(ctx.rng)) for _ in range(ctx.n(120, 1500))]
+  fixed_out = {}
+  for tag, inp in inputs:
+    try:
+      out = run_qeif_case(inp)
+      if any(len(b) != 2 for b in out["blocks"]) or not all(math.isfinite(v) for v in out["out"]) or not math.isfinite(out["best"]):
+        raise ValueError(f"draws of shape {out['blocks']} / estimates {out['out']} / incumbent {out['best']}")
+    except C.TieBroken:
+      raise
+    except Exception as e:
+      dis.append(dict(what=f"C05 qEI with failures: implementation raised or returned unusable values: {type(e).__name__}: {e}", kind="qeif", input=inp, observed=repr(e)))
+      continue
+    cases.append(qeif_case_term(inp, out))
+    meta.append((inp, out))
+    if tag:
+      fixed_out[tag] = out["out"]
+    b = min(inp["B"], inp["N"])
+    st = qeif_expected(inp)[2]
+    for t in (f"qeif:q={inp['q']}", f"qeif:p={inp['p']}", f"qeif:sets={len(inp['sets'])}", f"qeif:models={len(inp['fmodels'])}", f"qeif:{inp['entry']}",
+              f"qeif:thresholds-{inp['regime']}", "qeif:overshoot" if inp["N"] % b else "qeif:multiple", "qeif:several-passes" if inp["N"] > b else "qeif:one-pass",
+              "qeif:incumbent-acceptable" if st["acceptable"] else "qeif:incumbent-fallback"):
+      dist[t] = dist.get(t, 0) + 1
+    for t in ("blocks-masked", "blocks-fallback", "samples-feasible", "samples-infeasible", "samples-on-threshold"):
+      dist["qeif:" + t] = dist.get("qeif:" + t, 0) + st[t]
+    if len(inp["sets"]) >= 2 and any(v > 0 for v in out["out"]):
+      seen.add(C.canon_hash(inp))
+  bad = C.run_cases("C05qeif", QEIF_HEADER, "case", "check", cases, shard=40)
+  for i in bad:
+    inp, out = meta[i]
+    dis.append(dict(what=f"C05 correspondence (Monte-Carlo parallel EI with failure models) case {i}: incumbent or estimates of ExpectedParallelImprovementWithFailures "
+                         "differ from Model.ParallelEIF / Model.Incumbent or from the reading (masked improvement of the feasible sample minimum; "
+                         "success-probability weighted improvement in blocks that fall back)", kind="qeif", input=inp, observed=out))
+  return dict(evaluations=len(cases), distinct=len(seen), distribution=dist, disagreements=dis,
+              rule="Monte-Carlo parallel EI with failure models: real ExpectedParallelImprovementWithFailures over the real ProductOfListOfProbabilisticFailures on "
+                   "stub predictors / stub failure models with prescribed dyadic means, covariances, thresholds and success probabilities, prescribed dyadic factors and "
+                   "scripted dyadic draws, 1..2 failure models, q in 1..3, p in 0..2, 1..4 candidate sets per call, thresholds that all / some / no samples satisfy or "
+                   "that a sample hits exactly, block sizes dividing and not dividing num_mc_iterations, direct and public (batched) entry, plus the inputs of the refuted "
+                   "statements; non-trivial = at least two candidate sets and a positive estimate",
+              samples=[dict(kind="qeif", input={k: v for k, v in i.items() if k != "stream"}, impl_output=o) for i, o in meta[len(QEIF_FIXED):len(QEIF_FIXED) + 1]]
+                      + [dict(kind="qeif-refuted-statements-replayed", impl_output=fixed_out)])
+
+
 # ------------------------------------------------------------------------------------------ independent oracle
 
 
@@ -336,6 +614,8 @@ def oracle(inp):
     return dict(signature=f"C05:{what}", what=what, input=inp, observed=observed, expected=expected, oracle="quadrature / closed form / Monte-Carlo band")
   if inp.get("kind") == "qei":
     return qei_oracle(inp)
+  if inp.get("kind") == "qeif":
+    return qeif_oracle(inp)
   if "gp" not in inp:     # a correspondence case of another kind (batching / incumbents): nothing to re-evaluate here
     return None
   gi = inp["gp"]
@@ -524,10 +804,94 @@ def qei_oracle(inp):
   return None
 
 
+def qeif_expected(inp):
+  """Plain-Python exact restatement (fractions), sharing nothing with the library or the Coq model.  Incumbent: the lowest observed
+  value among the sampled points whose product of success probabilities exceeds 1/2 (else the predictor's best observed value).
+  Estimate of candidate set k: over the blocks of draws its call executed, per draw z (ONE z for the objective and every failure
+  model) the improvement max(0, best - y_j) of the lowest objective sample y = m + L z among the points j whose sampled failure-model
+  values m_i + L_i z are ALL strictly below the thresholds (0 if there is no such point); a block in which this is zero for every
+  set of the call and every draw contributes instead (product of success probabilities of the set's first point) * max(0, best - min y);
+  divided by the number of executed draws.  Returns (estimates as exact fractions, incumbent, statistics)."""
+  from fractions import Fraction as F
+  per_set, fms, mp, hprobs = qeif_tables(inp)
+  stats = {"blocks-masked": 0, "blocks-fallback": 0, "samples-feasible": 0, "samples-infeasible": 0, "samples-on-threshold": 0}
+  okv = []
+  for h, v in enumerate(inp["hist_values"]):
+    pr = F(1)
+    for row in hprobs:
+      pr *= F(row[h])
+    if pr > F(1, 2):
+      okv.append(F(v))
+  stats["acceptable"] = bool(okv)
+  best = min(okv) if okv else F(inp["best0"])
+  c, n = inp["q"] + inp["p"], len(inp["sets"])
+  b = min(inp["B"], inp["N"])
+  npass = -(-inp["N"] // b)
+  executed = npass * b
+  bs = (inp["batch"] or n) if inp["entry"] == "public" else n
+  dot = lambda L, j, z: sum(F(L[j][l]) * z[l] for l in range(c))
+  tot = [F(0)] * n
+  for call in range(-(-n // bs)):
+    members = list(range(call * bs, min((call + 1) * bs, n)))
+    for t in range(npass):
+      off = (call * executed + t * b) * c
+      zs = [[F(v) for v in inp["stream"][off + d * c: off + (d + 1) * c]] for d in range(b)]
+      masked, plain = {}, {}
+      for k in members:
+        (mk, L), fl, pr = per_set[k]
+        m = [F(v) for v in mk + mp]
+        for d, z in enumerate(zs):
+          y = [m[j] + dot(L, j, z) for j in range(c)]
+          ok = []
+          for j in range(c):
+            feas = True
+            for i, (fmk, Lf) in enumerate(fl):
+              fv = F((fmk + fms[i][0])[j]) + dot(Lf, j, z)
+              stats["samples-on-threshold"] += fv == F(fms[i][1])
+              feas = feas and fv < F(fms[i][1])
+            stats["samples-feasible" if feas else "samples-infeasible"] += 1
+            if feas:
+              ok.append(y[j])
+          masked[k, d] = max(F(0), best - min(ok)) if ok else F(0)
+          plain[k, d] = max(F(0), best - min(y))
+      fallback = all(v == 0 for v in masked.values())
+      stats["blocks-fallback" if fallback else "blocks-masked"] += 1
+      for k in members:
+        sp = F(1)
+        for v in per_set[k][2]:
+          sp *= F(v)
+        for d in range(b):
+          tot[k] += sp * plain[k, d] if fallback else masked[k, d]
+  return [t / executed for t in tot], best, stats
+
+
+def qeif_oracle(inp):
+  """the returned doubles must be the correctly rounded values of the rationals of qeif_expected, the incumbent exactly"""
+  try:
+    got = run_qeif_case(inp)
+  except C.TieBroken:
+    raise
+  except Exception as e:
+    return dict(signature="C05:qeif:raises", what=f"Monte-Carlo parallel EI with failure models raised {type(e).__name__} on a scripted posterior: {e}", input=inp,
+                observed=repr(e), expected="one estimate per candidate set", oracle="exact rational restatement")
+  want, best, _ = qeif_expected(inp)
+  if got["best"] != float(best):
+    return dict(signature="C05:qeif:incumbent is not the best observation with success probability > 1/2", input=inp, observed=got["best"], expected=float(best),
+                what="parallel EI with failure models: the incumbent is not the lowest observed value among the sampled points whose product of success probabilities "
+                     "exceeds 1/2 (fallback: the predictor's best observed value)", oracle="exact rational restatement on a scripted posterior")
+  want = [float(w) for w in want]
+  if len(got["out"]) != len(want) or any(g != w for g, w in zip(got["out"], want)):
+    return dict(signature="C05:qeif:estimate is not the mean masked improvement of the feasible sample minimum", input=inp, observed=got["out"], expected=want,
+                what="Monte-Carlo parallel EI with failure models: an estimate is not, over the blocks its call executed, the mean of max(0, best - min over the points whose "
+                     "sampled failure-model values are all strictly below their thresholds of (m + L z)_j), with success-probability weighted plain improvements in the blocks "
+                     "where all of these vanish", oracle="exact rational restatement on a scripted posterior (stub predictors, prescribed factors, scripted draws)")
+  return None
+
+
 def search(ctx, hints, broken):
   fails, n = [], 0
   for h in hints:
-    if isinstance(h.get("input"), dict) and h["input"].get("kind") == "qei":
+    if isinstance(h.get("input"), dict) and h["input"].get("kind") in ("qei", "qeif"):
       n += 1
       r = oracle(h["input"])
       if r and r["signature"] not in {f["signature"] for f in fails}:
@@ -552,7 +916,14 @@ def search(ctx, hints, broken):
       if r["signature"] not in {f["signature"] for f in fails}:
         fails.append(r)
       break
-  return dict(evaluations=n, failures=fails, oracle="exact rational restatement of the scripted Monte-Carlo parallel EI; Gauss-Legendre quadrature of E[max(best-Y,0)], closed-form probabilities, Monte-Carlo 6-sigma band")
+  for inp in [i for _, i in QEIF_FIXED] + [gen_qeif_case(ctx.rng) for _ in range(ctx.n(40, 400))]:
+    n += 1
+    r = oracle(inp)
+    if r:
+      if r["signature"] not in {f["signature"] for f in fails}:
+        fails.append(r)
+      break
+  return dict(evaluations=n, failures=fails, oracle="exact rational restatement of the scripted Monte-Carlo parallel EI (with and without failure models); Gauss-Legendre quadrature of E[max(best-Y,0)], closed-form probabilities, Monte-Carlo 6-sigma band")
 
 
 def replay(ctx, payload):
